@@ -77,6 +77,9 @@ Proof.
   - apply IH. exact H.
 Qed.
 
+Lemma w32_nonneg' x : 0 <= w32 x.
+Proof. unfold w32, W32. apply Z.mod_pos_bound. lia. Qed.
+
 (* ---- a buffer seen as a one-segment ring of exactly its own length -------- *)
 Section Buffer.
 Variable m : list byte.
@@ -480,6 +483,136 @@ Proof.
   change (0 =? 0) with true. cbn iota. cbn [bind].
   rewrite (Hk0 eq_refl). unfold extract_arg. rewrite K. reflexivity.
 Qed.
+
+(* ---- the layout an accepted buffer has, and the reference decoder ---------- *)
+Lemma find0_ge : forall l i e, find0 l i = Ok e -> i <= e.
+Proof.
+  induction l as [|c l IH]; intros i e H; cbn [find0] in H; [discriminate|].
+  destruct (c =? 0); [inversion H; lia | specialize (IH _ _ H); lia].
+Qed.
+
+Lemma path_scan_find0 : forall l i len o e,
+  path_scan l i len = Some o -> find0 l i = Ok e -> e < len -> o = e.
+Proof.
+  induction l as [|c l IH]; intros i len o e Hp Hf He; cbn [path_scan find0] in *; [discriminate|].
+  destruct (c =? 0) eqn:Ec.
+  - inversion Hf; subst. replace (len <=? e) with false in Hp by (symmetry; apply Z.leb_gt; lia).
+    inversion Hp. reflexivity.
+  - pose proof (find0_ge _ _ _ Hf).
+    replace (len <=? i) with false in Hp by (symmetry; apply Z.leb_gt; lia).
+    destruct (isprint c); [|discriminate]. eapply IH; eassumption.
+Qed.
+
+Lemma comma_scan_run : forall (k : nat) p q,
+  0 <= p -> p + Z.of_nat k = q -> q < n ->
+  (forall j, p <= j < q -> rd m j = Ok 0) -> rd m q = Ok 44 ->
+  comma_scan (from m p) p n = q.
+Proof.
+  induction k as [|k IH]; intros p q Hp Hq Hqn Hz Hc.
+  - assert (Hqp : q = p) by lia. clear Hq. subst q.
+    destruct (from_cons_rd p ltac:(lia)) as (c' & Hc' & Hf). rewrite Hc in Hc'. inversion Hc'; subst c'.
+    rewrite Hf. cbn [comma_scan]. replace (n <=? p) with false by (symmetry; apply Z.leb_gt; lia).
+    reflexivity.
+  - destruct (from_cons_rd p ltac:(lia)) as (c' & Hc' & Hf).
+    rewrite (Hz p ltac:(lia)) in Hc'. inversion Hc'; subst c'.
+    rewrite Hf. cbn [comma_scan]. replace (n <=? p) with false by (symmetry; apply Z.leb_gt; lia).
+    change (0 =? 44) with false. cbn iota.
+    apply (IH (p + 1) q); [lia | lia | assumption | intros j Hj; apply Hz; lia | assumption].
+Qed.
+
+Lemma scan0_stops_on_nul : forall fu q p, 0 <= q -> scan0 fu r q = Ok p -> p < n -> rd m p = Ok 0.
+Proof.
+  induction fu as [|fu IHf]; intros q p Hq Hs Hlt; [discriminate|].
+  cbn [scan0] in Hs. destruct (deref r q) as [c| |] eqn:Ed; cbn [bind] in Hs; try discriminate.
+  destruct (c =? 0) eqn:Ec0.
+  - inversion Hs; subst q. apply Z.eqb_eq in Ec0. subst c. rewrite <- (deref_in p ltac:(lia)). exact Ed.
+  - eapply IHf; [apply w32_nonneg' | exact Hs | exact Hlt].
+Qed.
+
+Theorem valid_layout :
+  valid_message_p m n = Ok true ->
+  exists p0 pos e tags l,
+    rd m 0 = Ok 47 /\ strz m 0 = Ok p0 /\ p0 < pos <= p0 + 4 /\ pos mod 4 = 0 /\
+    rd m pos = Ok 44 /\ strz m (pos + 1) = Ok e /\ e < n /\
+    cstr_at m (pos + 1) = Ok tags /\
+    itr_go m tags (e + (4 - (e - pos) mod 4)) = Ok l /\
+    Forall payload_inside (map snd l) /\
+    arg_string m = Ok (pos + 1) /\ itr_all m = Ok l.
+Proof.
+  intros H.
+  pose proof (zlen_nonneg m) as Hn0. fold n in Hn0.
+  assert (Hn27 : n < 134217728) by (unfold n; exact Hn).
+  unfold valid_message_p, valid_message_gen in H. cbn [andb] in H.
+  destruct (n =? 0) eqn:En0; [discriminate|]. apply Z.eqb_neq in En0.
+  destruct (rd m 0) as [c0| |] eqn:Ec0; cbn [bind] in H; try discriminate.
+  destruct (c0 =? 47) eqn:E47; cbn [negb] in H; [|discriminate]. apply Z.eqb_eq in E47. subst c0.
+  destruct (zlen m <? n); [discriminate|].
+  destruct (path_scan m 0 n) as [o1|] eqn:Eo1; [|discriminate].
+  destruct (4 <? comma_scan (from m o1) o1 n - o1) eqn:Eo4; [discriminate|].
+  destruct (negb (comma_scan (from m o1) o1 n mod 4 =? 0)) eqn:Eom; [discriminate|].
+  destruct (message_length m n) as [L| |] eqn:EL; cbn [bind] in H; try discriminate.
+  assert (HLn : L = n) by (inversion H as [HH]; apply Z.eqb_eq in HH; exact HH). subst L. clear H.
+  unfold message_length in EL. change {| d0 := m; n0 := n; d1 := []; n1 := 0 |} with r in EL.
+  unfold message_ring_length, message_ring_length_gen in EL.
+  (* not the bundle magic: the first byte is '/' *)
+  cbn [is_magic bundle_magic] in EL. rewrite (deref_in 0 ltac:(lia)), Ec0 in EL. cbn [bind] in EL.
+  change (47 =? 35) with false in EL. cbn iota in EL.
+  set (fuel := fuel_of r) in *.
+  destruct (scan0 fuel r 0) as [p0| |] eqn:Ep0; cbn [bind] in EL; try discriminate.
+  destruct (scan0_ge fuel 0 p0 ltac:(lia) ltac:(lia) Ep0) as (Hp0a & Hp0b).
+  destruct (nulword_inv p0 _ n Hp0a ltac:(unfold W32; lia) EL) as (pos & EL' & Hpos & Hzeros).
+  clear EL. rename EL' into EL.
+  destruct (deref r pos) as [c| |] eqn:Ec; cbn [bind] in EL; try discriminate.
+  destruct (c =? 44) eqn:E44; cbn [negb] in EL; [|inversion EL; lia]. apply Z.eqb_eq in E44. subst c.
+  assert (Hposn : pos < n).
+  { destruct (Z_lt_le_dec pos n) as [Hlt|Hge]; [assumption|]. rewrite (deref_out pos Hge) in Ec. discriminate. }
+  assert (Hp0n : p0 < n) by lia.
+  rewrite (w32_small (pos + 1)) in EL by (unfold W32; lia).
+  destruct (read_tags fuel r (pos + 1)) as [tags| |] eqn:Et; cbn [bind] in EL; try discriminate.
+  destruct (scan0 fuel r (pos + 1)) as [e| |] eqn:Ee; cbn [bind] in EL; try discriminate.
+  destruct (scan0_ge fuel (pos + 1) e ltac:(lia) ltac:(lia) Ee) as (Hea & Heb).
+  pose proof (read_tags_len fuel (pos + 1) tags ltac:(lia) ltac:(lia) Et) as Htl.
+  pose proof (zlen_nonneg tags) as Htl0.
+  rewrite (w32_small (e + (4 - (e - pos) mod 4))) in EL by (unfold W32; lia).
+  destruct (ring_args true fuel r pos (nreserved tags) tags (e + (4 - (e - pos) mod 4))) as [fin| |] eqn:Ef;
+    cbn [bind] in EL; try discriminate.
+  rewrite r_total in EL.
+  destruct (fin <=? n) eqn:Efn; [|inversion EL; lia]. apply Z.leb_le in Efn.
+  destruct (ring_args_safe fuel pos tags (e + (4 - (e - pos) mod 4)) fin ltac:(lia) ltac:(lia)
+              ltac:(unfold W32; lia) ltac:(unfold W32; lia) Ef Efn) as (Hstart & l & Hl & Hins).
+  assert (Helt : e < n) by lia.
+  destruct (scan0_strz fuel 0 p0 ltac:(lia) ltac:(lia) Ep0 Hp0n) as (Hstrz0 & _).
+  destruct (scan0_strz fuel (pos + 1) e ltac:(lia) ltac:(lia) Ee Helt) as (Hstrze & _).
+  pose proof (read_tags_cstr fuel (pos + 1) tags e ltac:(lia) ltac:(lia) Et Ee Helt) as Htags.
+  assert (Hrdpos : rd m pos = Ok 44) by (rewrite <- (deref_in pos ltac:(lia)); exact Ec).
+  assert (Ho1 : o1 = p0).
+  { unfold strz in Hstrz0. change (0 <? 0) with false in Hstrz0. cbn iota in Hstrz0. rewrite from_0 in Hstrz0.
+    eapply path_scan_find0; eassumption. }
+  subst o1.
+  pose proof (scan0_stops_on_nul fuel 0 p0 ltac:(lia) Ep0 Hp0n) as Hrdp0.
+  assert (Ho2 : comma_scan (from m p0) p0 n = pos).
+  { apply (comma_scan_run (Z.to_nat (pos - p0)) p0 pos); [lia | lia | assumption | | assumption].
+    intros j Hj. destruct (Z.eq_dec j p0) as [->|Hne]; [exact Hrdp0|].
+    rewrite <- (deref_in j ltac:(lia)). apply Hzeros. lia. }
+  rewrite Ho2 in Eom. destruct (pos mod 4 =? 0) eqn:Epm; [|discriminate]. apply Z.eqb_eq in Epm.
+  assert (Hstrz1 : strz m 1 = Ok p0).
+  { unfold strz in *. change (0 <? 0) with false in Hstrz0. change (1 <? 0) with false. cbn iota in *.
+    destruct (from_cons_rd 0 ltac:(lia)) as (c' & Hc' & Hf). rewrite Ec0 in Hc'. inversion Hc'; subst c'.
+    rewrite from_0 in Hf. rewrite from_0, Hf in Hstrz0. cbn [find0] in Hstrz0.
+    change (47 =? 0) with false in Hstrz0. cbn iota in Hstrz0. exact Hstrz0. }
+  assert (Hargstr : arg_string m = Ok (pos + 1)).
+  { unfold arg_string. rewrite Hstrz1. cbn [bind].
+    rewrite (findnz_zeros_rd (Z.to_nat (pos - (p0 + 1))) (p0 + 1) pos ltac:(lia) ltac:(lia) Hposn).
+    - reflexivity.
+    - intros j Hj. rewrite <- (deref_in j ltac:(lia)). apply Hzeros. lia.
+    - exists 44. split; [exact Hrdpos | discriminate]. }
+  assert (Hitr : itr_all m = Ok l).
+  { unfold itr_all, arg_start. rewrite Hargstr. cbn [bind]. rewrite Htags. cbn [bind]. rewrite Hstrze. cbn [bind].
+    replace (pos + 1 - 1) with pos by lia. exact Hl. }
+  exists p0, pos, e, tags, l.
+  repeat split; try assumption; lia.
+Qed.
+
 End Buffer.
 
 (* ---- completeness on canonical messages: the validator accepts every OSC 1.0
